@@ -1281,7 +1281,7 @@ def pr_from_replay(d):
                 threads=d.get("threads", False))
 
 
-def minimise(pr, kind, impl, model, budget=40.0):
+def minimise(pr, kind, impl, model, budget=40.0, env=None):
     """delta debugging on the generator set: keep the same kind of finding"""
     t0 = time.time()
     pts = list(pr["pts"])
@@ -1290,7 +1290,7 @@ def minimise(pr, kind, impl, model, budget=40.0):
         p = dict(pr)
         p["pts"] = cand
         st = {}
-        r = process([p], impl, model, True, st)
+        r = process([p], impl, model, True, st, env=env)
         return any(it[0] == kind for it in r[0][1])
     nchunk = 2
     while len(pts) >= 2 and time.time() - t0 < budget:
@@ -1353,52 +1353,57 @@ def run(ck):
         probs = build_problems(ck.rng, ck.quick)
         ck.log("generator sets: %d, cells: %d" % (len(probs), sum(len(p["pts"]) for p in probs)))
         t0 = time.time()
-        results = []
-        # batches keep the harness output in memory bounded
-        bs = 24
-        for b0 in range(0, len(probs), bs):
-            results += process(probs[b0:b0 + bs], impl, model, ck.quick, stats, cert_cap=(60 if ck.quick else 150) if True else None)
-        ck.log("pipeline %.1fs" % (time.time() - t0))
         nviol = 0
         classes = {}
         sizes = {}
-        for pr, items, info in results:
-            key = "%s/%s" % (pr["cls"], pr["box"])
-            classes[key] = classes.get(key, 0) + 1
-            nb = len(pr["pts"])
-            sk = "<=8" if nb <= 8 else "<=50" if nb <= 50 else "<=150" if nb <= 150 else "<=500" if nb <= 500 else ">500"
-            sizes[sk] = sizes.get(sk, 0) + 1
-            if not items:
-                continue
-            kinds = []
-            for it in items:
-                if it[0] not in kinds:
-                    kinds.append(it[0])
+        done = 0
+        # a construction that hangs is killed by the harness after C15_ALARM seconds
+        henv = {"C15_ALARM": os.environ.get("C15_ALARM", "30" if ck.quick else "180")}
+        bs = 12
+        for b0 in range(0, len(probs), bs):
             if nviol >= 4:
-                continue
-            nviol += 1
-            kind = kinds[0]
-            # prefer the theorem-backed kinds as the headline
-            for pref in ("missing_neighbour_confirmed", "lookup", "asymmetric_neighbour", "cert_rejected", "crash"):
-                if pref in kinds:
-                    kind = pref
-                    break
-            small = pr
-            if len(pr["pts"]) > 8 and kind not in ("checker", "harness"):
-                try:
-                    small = minimise(pr, kind, impl, model, budget=30.0 if ck.quick else 90.0)
-                except Exception as ex:
-                    ck.notes.append("minimisation failed: %r" % (ex,))
-            st2 = {}
-            again = process([small], impl, model, True, st2)[0][1]
-            texts = [it[1] for it in again if it[0] == kind][:3] or [it[1] for it in items if it[0] == kind][:3]
-            ck.violation("C15 fails on the real Voronoi grids [%s] (%s generator set, box %s, %d generators after minimisation from %d): %s; all kinds of finding on the original set: %s"
-                         % (kind, pr["cls"], pr["box"], len(small["pts"]), len(pr["pts"]), " || ".join(texts), ",".join(kinds)),
-                         pr_replay(small, {"kind": kind, "threads": len(pr["pts"]) > 100}), key={"kind": kind})
+                ck.notes.append("stopped after %d of %d generator sets: %d violations already reported" % (done, len(probs), nviol))
+                break
+            results = process(probs[b0:b0 + bs], impl, model, ck.quick, stats, cert_cap=(60 if ck.quick else 150), env=henv)
+            done += len(results)
+            for pr, items, info in results:
+                key = "%s/%s" % (pr["cls"], pr["box"])
+                classes[key] = classes.get(key, 0) + 1
+                nb = len(pr["pts"])
+                sk = "<=8" if nb <= 8 else "<=50" if nb <= 50 else "<=150" if nb <= 150 else "<=500" if nb <= 500 else ">500"
+                sizes[sk] = sizes.get(sk, 0) + 1
+                if not items:
+                    continue
+                kinds = []
+                for it in items:
+                    if it[0] not in kinds:
+                        kinds.append(it[0])
+                if nviol >= 4:
+                    continue
+                nviol += 1
+                kind = kinds[0]
+                # prefer the theorem-backed kinds as the headline
+                for pref in ("missing_neighbour_confirmed", "lookup", "asymmetric_neighbour", "cert_rejected", "crash"):
+                    if pref in kinds:
+                        kind = pref
+                        break
+                small = pr
+                if len(pr["pts"]) > 8 and kind not in ("checker", "harness"):
+                    try:
+                        small = minimise(pr, kind, impl, model, budget=30.0 if ck.quick else 90.0, env=henv)
+                    except Exception as ex:
+                        ck.notes.append("minimisation failed: %r" % (ex,))
+                st2 = {}
+                again = process([small], impl, model, True, st2, env=henv)[0][1]
+                texts = [it[1] for it in again if it[0] == kind][:3] or [it[1] for it in items if it[0] == kind][:3]
+                ck.violation("C15 fails on the real Voronoi grids [%s] (%s generator set, box %s, %d generators after minimisation from %d): %s; all kinds of finding on the original set: %s"
+                             % (kind, pr["cls"], pr["box"], len(small["pts"]), len(pr["pts"]), " || ".join(texts), ",".join(kinds)),
+                             pr_replay(small, {"kind": kind, "threads": len(pr["pts"]) > 100}), key={"kind": kind})
+        ck.log("pipeline %.1fs" % (time.time() - t0))
         cov["input_classes"] = classes
         cov["set_sizes"] = sizes
-        cov["generator_sets"] = len(probs)
-        cov["cells"] = sum(len(p["pts"]) for p in probs)
+        cov["generator_sets"] = done
+        cov["cells"] = sum(len(p["pts"]) for p in probs[:done])
         # ---- precondition sweep: internal representation of random boxes (the class needs every coordinate in [1,2)) ----
         nb = 60 if ck.quick else 400
         sweep = []
